@@ -129,7 +129,7 @@ def run_check(prop, tree, root, tier="quick", extra=()):
     return {"rc": p.returncode, "viol": viol, "info": info, "wall": time.time() - t0, "replay_reproduces": replay_ok, "stderr": p.stderr[-300:]}
 
 
-def judge_patch(name, patch, expect_props, root, report, expect_inconclusive=False, allow_c13=None):
+def judge_patch(name, patch, expect_props, root, report, expect_inconclusive=False, allow_c13=None, exact=False):
     tree = make_copy(patch, root)
     tests_ok, tail = run_tests(tree)
     res = {"tests_pass": tests_ok, "tests": tail, "checks": {}}
@@ -149,6 +149,8 @@ def judge_patch(name, patch, expect_props, root, report, expect_inconclusive=Fal
         ok = tests_ok and not caught and all(c["rc"] == 2 for c in res["checks"].values())
     elif expect_props:
         if not any(p in caught for p in expect_props):
+            ok = False
+        if exact and sorted(caught) != sorted(expect_props):
             ok = False
     elif caught:
         # a rewrite that (knowingly) shares the accepted torn-frame limitation may be reported by C13 for
@@ -196,7 +198,8 @@ def mutants(names):
             if names and not any(n in name for n in names):
                 continue
             patch = os.path.join(HERE, "mutants", name + ".patch")
-            ok &= judge_patch(name, patch, [p for p in props.split(",") if p], root, report)
+            exact = props.endswith("!")  # "C13!": exactly this check must report, the other must stay silent
+            ok &= judge_patch(name, patch, [p for p in props.rstrip("!").split(",") if p], root, report, exact=exact)
     finally:
         shutil.rmtree(root, ignore_errors=True)
     _save_report(os.path.join(HERE, "mutants", "REPORT.json"), report, bool(names))
